@@ -14,6 +14,10 @@ type Prop struct {
 	// Replay re-executes one recorded case (kind selects the evaluator) and records a
 	// violation in c if it fails again.
 	Replay map[string]func(c *mc.Ctx, raw json.RawMessage)
+	// Procs: run as single-threaded shard processes instead of goroutines (for checks that go
+	// through bchd/wire serialisation, which serialises all goroutines on one global channel).
+	// All enumeration of such a check must go through ParFor or be guarded by mc.Shard0().
+	Procs bool
 }
 
 var Registry = map[string]*Prop{}
